@@ -76,43 +76,64 @@ Proof. exact finals_whole. Qed.
 Print Assumptions C10_crash_anywhere_finals_whole.
 
 (* And the request that is answered from the cache really has installed everything: when extract_objects returns Ok
-   (outputs pairwise distinct), every member that decoded is at its output path, complete. *)
+   (outputs pairwise distinct), every member that decoded and whose output is not a device node is at its output
+   path, complete. *)
 Theorem C10_success_installs_new :
   forall (f0 : fs) (objs : list obj) (readers : list (@thread local action)) (sched : list nat),
     fs_okb f0 = true -> outputs_okb objs = true -> forallb (observerb f0) readers = true ->
     NoDup (map o_path objs) ->
     forall l rs o,
       snd (run sched f0 objs readers) = (l, []) :: rs -> l_dead l = false ->
-      In o objs -> o_ok o = true ->
+      In o objs -> o_special o = false -> o_ok o = true ->
       content (fst (run sched f0 objs readers)) (o_path o) = Some (o_new o).
 Proof.
-  intros f0 objs readers sched Hfs Hout Hobs Hnd l rs o Hfin Hal Hin Hok.
-  exact (success_installs_new f0 objs readers sched Hfs Hout Hobs l rs o Hnd Hfin Hal Hin Hok).
+  intros f0 objs readers sched Hfs Hout Hobs Hnd l rs o Hfin Hal Hin Hsp Hok.
+  exact (success_installs_new f0 objs readers sched Hfs Hout Hobs l rs o Hnd Hfin Hal Hin Hsp Hok).
 Qed.
 Print Assumptions C10_success_installs_new.
 
 (* The shape of the system calls (the tie to the strace leg: the harness checks that the OBSERVED calls are exactly
-   [trace (prog objs)] for the object descriptions read back from them).  From any state, whatever the members do: an
-   output path is only ever named as the target of a rename FROM A TEMP FILE OF THE SAME DIRECTORY, or by the chmod
-   after it; every create, write and unlink names a temp file. *)
+   [trace (prog objs)] for the object descriptions read back from them), with the two classes of outputs explicit.
+   From any state, whatever the members do:
+     - an output restored through a temp file (previous state: absent, a regular file, a symbolic link to one, a
+       directory) is only ever named as the target of a rename FROM A TEMP FILE OF THE SAME DIRECTORY, or by the chmod
+       after it — never opened for writing, never written;
+     - an output that is a device node (`-o /dev/null`) is only ever opened for writing and written into — never the
+       target of a rename, never chmod'ed;
+     - every create and unlink, and every other write, names a temp file. *)
 Theorem C10_outputs_change_only_by_rename :
   forall (objs : list obj) (s : fs * local),
+    let reg := map o_path (filter (fun o => negb (o_special o)) objs) in
+    let spec := map o_path (filter o_special objs) in
     Forall (fun e => match e with
                      | ECreate t => is_tmp t = true
-                     | EWrite t _ => is_tmp t = true
+                     | EWrite t _ => is_tmp t = true \/ In t spec
                      | EUnlink t => is_tmp t = true
-                     | ERename t p => is_tmp t = true /\ fst t = fst p /\ In p (map o_path objs)
-                     | EChmod p _ => In p (map o_path objs)
+                     | ERename t p => is_tmp t = true /\ fst t = fst p /\ In p reg
+                     | EChmod p _ => In p reg
+                     | EOpenW p => In p spec
                      end) (trace (prog objs) s).
 Proof. exact trace_shape. Qed.
 Print Assumptions C10_outputs_change_only_by_rename.
 
+(* For device-node outputs the directory entry is never replaced: under every schedule, at every moment, a path at
+   which only device-node outputs are restored names the inode it named before the request (and, the model's device
+   being a sink, whatever is read there is what the device gives — the other theorems hold for it trivially). *)
+Theorem C10_special_output_never_replaced :
+  forall (f0 : fs) (objs : list obj) (readers : list (@thread local action)) (sched : list nat),
+    fs_okb f0 = true -> outputs_okb objs = true -> forallb (observerb f0) readers = true ->
+    forall q, is_tmp q = false ->
+      (forall o, In o objs -> o_path o = q -> o_special o = true) ->
+      lookup q (fst (run sched f0 objs readers)) = lookup q f0.
+Proof. exact special_entry_never_replaced. Qed.
+Print Assumptions C10_special_output_never_replaced.
+
 (* A true fact about the code, not hidden: `persist` comes before `set_file_mode`, so for every member with a stored
-   mode there is a moment (after 2 + #chunks steps of the extraction) at which the output path already holds the
+   mode whose output is not a device node there is a moment (after 2 + #chunks steps of the extraction) at which the output path already holds the
    complete new bytes but still carries the temp file's mode 0600; one step later it has the stored mode. *)
 Theorem C10_mode_window :
   forall (f0 : fs) (o : obj) (m : N) (readers : list (@thread local action)),
-    is_tmp (o_path o) = false -> o_dec o = DecOk (Some m) -> o_fault o = FNone ->
+    is_tmp (o_path o) = false -> o_special o = false -> o_dec o = DecOk (Some m) -> o_fault o = FNone ->
     lookup (o_tmp o) f0 = None ->
     let k := S (S (length (o_chunks o))) in
     let f_between := fst (run (repeat 0%nat k) f0 [o] readers) in
@@ -128,8 +149,8 @@ Definition ex_a : path := ([100], [97]).          (* d/a *)
 Definition ex_b : path := ([100], [98]).          (* d/b *)
 Definition ex_f0 : fs := mk_fs_from [(ex_a, ([1; 2; 3], 420)); (ex_b, ([9], 420))] 0.
 Definition ex_objs : list obj :=
-  [ mkObj ex_a [120] [[7]; [8; 9]; [10]] (DecOk (Some 493)) false FNone;      (* restored in three writes *)
-    mkObj ex_b [121] [[5]; [6]] DecCorrupt false FNone ].                      (* fails after two writes *)
+  [ mkObj ex_a [120] [[7]; [8; 9]; [10]] (DecOk (Some 493)) false FNone false;      (* restored in three writes *)
+    mkObj ex_b [121] [[5]; [6]] DecCorrupt false FNone false ].                      (* fails after two writes *)
 Definition ex_readers : list (@thread local action) :=
   [ (init_local, [AOpen ex_a; ARead; AOpen ex_a; ARead; ARead]);
     (mkLocal (lookup ex_a ex_f0) ex_a [] false, [ARead; ARead]) ].
@@ -154,6 +175,24 @@ Proof. vm_compute. repeat split; reflexivity. Qed.
 
 (* the mode window on this example: after create + 3 writes + rename the new bytes carry mode 0600 *)
 Example ex_mode_window :
-  let f := fst (run (repeat 0%nat 5) ex_f0 [hd (mkObj ex_a [] [] DecAbsent false FNone) ex_objs] []) in
+  let f := fst (run (repeat 0%nat 5) ex_f0 [hd (mkObj ex_a [] [] DecAbsent false FNone false) ex_objs] []) in
   content f ex_a = Some [7; 8; 9; 10] /\ mode_at f ex_a = Some 384.
 Proof. vm_compute. auto. Qed.
+
+(* a device-node output next to a regular one: it is opened and written into, its entry and mode stay, the regular
+   output is installed by rename *)
+Definition ex_null : path := ([100], [110]).      (* d/n *)
+Definition ex_f0s : fs := mk_fs_from [(ex_a, ([1; 2; 3], 420)); (ex_null, ([], 438))] 0.
+Definition ex_objs_s : list obj :=
+  [ mkObj ex_null [119] [[7]; [8]] (DecOk (Some 420)) false FNone true;
+    mkObj ex_a [120] [[7]; [8; 9]] (DecOk (Some 493)) false FNone false ].
+
+Example ex_special :
+  let s := seq_run (prog ex_objs_s) (ex_f0s, init_local) in
+  trace (prog ex_objs_s) (ex_f0s, init_local) =
+    [ EOpenW ex_null; EWrite ex_null 1; EWrite ex_null 1;
+      ECreate (o_tmp (mkObj ex_a [120] [] DecAbsent false FNone false)); EWrite ([100], [46; 116; 109; 112; 120]) 1;
+      EWrite ([100], [46; 116; 109; 112; 120]) 2; ERename ([100], [46; 116; 109; 112; 120]) ex_a; EChmod ex_a 493 ]
+  /\ lookup ex_null (fst s) = lookup ex_null ex_f0s /\ mode_at (fst s) ex_null = Some 438
+  /\ content (fst s) ex_a = Some [7; 8; 9] /\ l_dead (snd s) = false.
+Proof. vm_compute. repeat split; reflexivity. Qed.
